@@ -158,6 +158,12 @@ impl GKey {
             _ => 0,
         }
     }
+    fn has_duplicate_alts(&self) -> bool {
+        match self {
+            GKey::X { alts, .. } => (1..alts.len()).any(|i| alts[..i].contains(&alts[i])),
+            _ => false,
+        }
+    }
     fn has_wildcard(&self) -> bool { matches!(self, GKey::X { wild, .. } if *wild != 0) }
     /// the derivation path(s) after the xpub, one per alternative
     fn paths(&self) -> Vec<Vec<ChildNumber>> {
